@@ -1,5 +1,8 @@
 """C14 - see p_cachefam.py (cache family) and DESIGN.md section 5/C14."""
+import json
+
 import p_cachefam as fam
+import p_subfam as sub
 
 PID = "C14"
 RULE = "seeded random call sequences over 2-4 targets with overlapping path sets incl. names that are prefixes of each other (dev1/dev10) (profile 'multi': Reset, Remove, Add, lifecycle calls, HasTarget, Query on known/unknown/'*'); TLC validates against CacheTrace.tla that every call changes only the addressed target (content and metadata of every other target are re-read and compared after every call), that Reset/Remove clear and announce exactly what they must, and that removed targets are unknown. distinct_nontrivial = distinct (call, result, feed, content) lines with non-empty content"
@@ -8,8 +11,16 @@ RULE = "seeded random call sequences over 2-4 targets with overlapping path sets
 def run(tier):
     n, length = (480, 60) if tier == "quick" else (12000, 80)
     cfg = "CacheMC_C14.cfg" if tier == "quick" else "CacheMC_C14_thorough.cfg"
-    return fam.run_family(PID, tier, 'multi', n, length, cfg, RULE, shards=16 if tier == "quick" else 48)
+    rc1 = fam.run_family(PID, tier, 'multi', n, length, cfg, RULE, shards=16 if tier == "quick" else 48)
+    # stream clause: removing a target ends single-target subscriptions to it cleanly; '*' subscriptions continue
+    rc2 = sub.run_family(PID, tier, [("remove", 1500 if tier == "quick" else 60000)], [("Subscribe.tla", "Subscribe_none.cfg", False)],
+                         "stream clause: random subscribe scenarios in which targets are Reset and Removed while single-target and '*' STREAM subscriptions "
+                         "are attached at arbitrary points; a single-target stream must deliver the whole-target delete and end OK (or be refused NotFound), "
+                         "a '*' stream continues and converges (SubscribeTrace.tla)", [], shards=16 if tier == "quick" else 48, merge=True)
+    return max(rc1, rc2)
 
 
 def replay(path):
-    return fam.replay_family(PID, path)
+    with open(path) as f:
+        family = json.load(f).get("family")
+    return sub.replay_family(PID, path) if family == "subscribe" else fam.replay_family(PID, path)
